@@ -86,11 +86,12 @@ type c15case struct {
 	rate    c15rate
 	workers int
 	delay   string
+	failNth int           // packet scans: the write of that frame (1-based) fails; the limiter must keep charging the rest
 	stall   time.Duration // the first probe (its Scan call / its write) lasts that long: the limiter idles, then must not let more than its fixed allowance burst out
 }
 
 func (k c15case) String() string {
-	return fmt.Sprintf("%s --rate %s target=%s workers=%d exit-delay=%s first-probe-stalls=%v", k.cmd.name, k.rate.text, k.tg.name, k.workers, k.delay, k.stall)
+	return fmt.Sprintf("%s --rate %s target=%s workers=%d exit-delay=%s first-probe-stalls=%v failing-write=%d", k.cmd.name, k.rate.text, k.tg.name, k.workers, k.delay, k.stall, k.failNth)
 }
 
 func c15build(k c15case) (*vE2ESpec, *int64) {
@@ -136,7 +137,23 @@ func c15build(k c15case) (*vE2ESpec, *int64) {
 			}
 		}
 	}
-	if k.cmd.kind != "app" && per >= 2 && k.tg.name != "201-ranges" && k.stall == 0 {
+	if k.failNth > 0 && k.cmd.kind != "app" {
+		world, nth := sc.World, k.failNth
+		sc.World = func(w *zzvenv.World) {
+			if world != nil {
+				world(w)
+			} else {
+				vDefaultWorld(w)
+			}
+			w.WriteErr = func(n int, _ []byte) error {
+				if n == nth-1 {
+					return fmt.Errorf("sendto: no buffer space available")
+				}
+				return nil
+			}
+		}
+	}
+	if k.cmd.kind != "app" && per >= 2 && k.tg.name != "201-ranges" && k.stall == 0 && k.failNth == 0 {
 		frame := c15reply(k.cmd, false)
 		sc.Net = func(r *vE2ERun) {
 			// the sender is asleep in the limiter between the probes at 0 and at per
@@ -246,7 +263,7 @@ func verifC15(c *drv.Ctx) {
 	}
 	portless := []c15target{{"16", "10.0.1.0/28", "", 16}, {"32", "10.0.1.0/27", "", 32}}
 	chunked := c15target{"201-ranges", "10.0.1.1/32", p201, 201}
-	c.R.Rule = "every scan command (12) x every rate spelling of the table (N, N/s, N/<k>ms|s|m; N in 1..1000(65535), windows 1 ms..1 min(1 h)) x probe counts {16, 32|40} (+ a 201-range port list = 2 chunks, 2 limiters), application scans x workers {1, 2, 3, 100}; plus, per command, 3 rates with N > 10 where the first probe stalls for 1.5 windows (60/64 probes follow: the idle limiter may release only its fixed allowance at once); " +
+	c.R.Rule = "every scan command (12) x every rate spelling of the table (N, N/s, N/<k>ms|s|m; N in 1..1000(65535), windows 1 ms..1 min(1 h)) x probe counts {16, 32|40} (+ a 201-range port list = 2 chunks, 2 limiters), application scans x workers {1, 2, 3, 100}; plus, per packet command, a run in which one write fails (the rest must still be charged and spaced), and, per command, 3 rates with N > 10 where the first probe stalls for 1.5 windows (60/64 probes follow: the idle limiter may release only its fixed allowance at once); " +
 		"one run of the real command per case on the virtual clock with the real uber limiter; a reply-shaped frame is injected while the sender sleeps in the limiter. Oracle: any k consecutive departures span >= (k-1-10)*floor(W/N); #limiter calls = #probes per thread; " +
 		"one limiter per engine run; the injected frame is read at the instant of injection and reported. Then a schedule exploration (deviation bound 1, thorough 2 on the smaller one) of two application scans (2 and 3 workers) under the same oracle. non-trivial = more than 11 probes (the bound says nothing below that)"
 	idx := 0
@@ -297,6 +314,17 @@ func verifC15(c *drv.Ctx) {
 				} else {
 					runCase(c15case{cmd: cmd, tg: tg, rate: rate})
 				}
+			}
+		}
+		// one write fails (ENOBUFS-like): every other frame is still charged and spaced
+		if cmd.kind != "app" {
+			tgf := c15target{"40", "10.0.1.0/29", "80-84", 40}
+			if !cmd.ports {
+				tgf = c15target{"32", "10.0.1.0/27", "", 32}
+			}
+			runCase(c15case{cmd: cmd, tg: tgf, rate: c15rate{"100/s", 100, time.Second}, failNth: 3})
+			if c.Thorough() {
+				runCase(c15case{cmd: cmd, tg: tgf, rate: c15rate{"5/7s", 5, 7 * time.Second}, failNth: 1})
 			}
 		}
 		// a stall: the first probe lasts 1.5 windows, the limiter idles meanwhile
